@@ -108,6 +108,9 @@ def rnd_obj(r, dt=None, kinds=("matrix", "ragged", "ragged", "intervals")):
     return ["intervals", st, [r.randint(s + 1, L) for s in st], L]
 
 
+OBJV = ["direct", "direct", "rev", "tail", "perm", "mask"]
+
+
 def nrows(obj):
     return len(obj[2]) if obj[0] != "intervals" else len(obj[1])
 
@@ -127,11 +130,11 @@ def gen_c17(r):
             cs = ["int", r.randint(-L - 1, L)]
         else:
             cs = rnd_slice(r, L)
-        return ["rl2_getitem", obj, rs, cs], {"tuple1": r.random() < 0.2}, False
+        return ["rl2_getitem", obj, rs, cs], {"tuple1": r.random() < 0.2, "objvia": r.choice(OBJV)}, False
     if k == "func":
         obj = rnd_obj(r)
         name = r.choice(["to_array", "len", "size", "shape", "sum", "any", "all", "max", "mean", "argmax", "colsum", "colmean", "colcounts", "colany", "ravel"])
-        return ["rl2_func", name, obj], {"how": r.choice(["method", "np"])}, False
+        return ["rl2_func", name, obj], {"how": r.choice(["method", "np"]), "objvia": r.choice(OBJV)}, False
     if k == "ufunc":
         obj = rnd_obj(r, kinds=("matrix", "ragged", "ragged"))
         a = ["obj", obj]
